@@ -957,3 +957,29 @@ Qed.
 Lemma run_round_ix_noindex e k m idx w :
   run_round_ix e k m idx w [] = (run_round e k m idx w, []).
 Proof. apply run_groups_ix_noindex. reflexivity. Qed.
+
+(* read_only remotes: with none attached, collect(push=True) is collect *)
+Lemma collect_ro_nil m idx : collect_ro [] m idx = collect m idx.
+Proof. reflexivity. Qed.
+Lemma run_round_ro_nil e k m idx w x : run_round_ro e k [] m idx w x = run_round_ix e k m idx w x.
+Proof. destruct k; reflexivity. Qed.
+(* a read_only remote is no group of a push: it is never a destination, nothing is written to it *)
+Lemma collect_ro_fold_skips ro m idx : forall l acc,
+  (forall g, In g acc -> existsb (N.eqb (g_data g)) ro = false) ->
+  forall g, In g (fold_left (collect_step_ro ro m idx) l acc) -> existsb (N.eqb (g_data g)) ro = false.
+Proof.
+  induction l as [|ps l IH]; simpl; intros acc Hacc; auto.
+  apply IH. intros g Hg. unfold collect_step_ro in Hg.
+  destruct (getitem m (fst ps)) as [si|]; auto. destruct (si_remote si) as [d|]; auto.
+  destruct (existsb (N.eqb d) ro) eqn:E; auto.
+  assert (Hd : In (g_data g) (map g_data (add_group d (si_cache si) (under (fst ps) (entries m idx)) acc)))
+    by now apply in_map.
+  clear Hg. revert Hd. generalize (under (fst ps) (entries m idx)). intros oids.
+  induction acc as [|g0 r IHr]; simpl.
+  - intros [<-|[]]. exact E.
+  - destruct (N.eqb (g_data g0) d) eqn:E0; simpl.
+    + intros [<-|H]; [exact E|]. apply in_map_iff in H. destruct H as [g1 [<- H1]]. apply Hacc. now right.
+    + intros [<-|H]; [apply Hacc; now left|]. apply IHr; auto. intros g1 H1. apply Hacc. now right.
+Qed.
+Lemma collect_ro_skips ro m idx g : In g (collect_ro ro m idx) -> existsb (N.eqb (g_data g)) ro = false.
+Proof. unfold collect_ro. apply collect_ro_fold_skips. intros ? []. Qed.
